@@ -181,7 +181,7 @@ func writeTree(root string, tree map[string][]mInc, clash bool) {
 			b.WriteString("includes:\n")
 			for _, inc := range incs {
 				target := relPath(f, inc.File)
-				if inc.Missing != "no" {
+				if inc.Missing == "optional" || inc.Missing == "required" {
 					target = "./nope"
 				}
 				fmt.Fprintf(&b, "  %s:\n    taskfile: %s\n", inc.NS, target)
@@ -191,7 +191,7 @@ func writeTree(root string, tree map[string][]mInc, clash bool) {
 				if inc.Internal {
 					b.WriteString("    internal: true\n")
 				}
-				if inc.Missing == "optional" {
+				if inc.Missing == "optional" || inc.Missing == "present-optional" {
 					b.WriteString("    optional: true\n")
 				}
 				if inc.Alias != "" {
